@@ -31,6 +31,18 @@ def packets(rng, n, maxrr=4):
                 p["qs"].append({"name": nm, "qtype": 1, "qclass": 1, "uni": False})
                 p["ans"].append({"name": nm, "class": 1, "ttl": 1, "cf": False, "rdata": ("T", "MX", [("I", 1), ("N", nm)])})
                 p["adds"].append({"name": nm[1:], "class": 1, "ttl": 1, "cf": False, "rdata": ("T", "SRV", [("I", 1), ("I", 2), ("I", 3), ("N", nm)])})
+        if k % 5 == 2:
+            # the same record more than once in a section (exactly, or with another TTL / cache-flush bit), next to each other
+            # or apart, and the same record in two sections: each is an entry of its own
+            for sec in ("ans", "nss", "adds"):
+                if p[sec] and rng.chance(1, 2):
+                    r = dict(rng.choice(p[sec]))
+                    if rng.chance(1, 2):
+                        r["ttl"] = dns.gen_int(rng, 4)
+                        r["cf"] = not r["cf"]
+                    p[sec].insert(rng.below(len(p[sec]) + 1), r)
+                    if rng.chance(1, 3):
+                        p[rng.choice(["ans", "nss", "adds"])].append(dict(r))
         out.append(p)
         k += 1
     return out
@@ -124,4 +136,69 @@ def chain_packets(rng, depths=(3, 11, 12, 13, 25, 40, 90)):
             if sum(len(l) + 1 for l in name) + 1 > 250:
                 break
         out.append(p)
+    return out
+
+
+def blob_packets(tier="quick"):
+    """one record whose RDATA is large - 257 bytes up to the 65535 an RDLENGTH can announce, around every power of two on the way -
+    for every type with a variable-length part (trailing blob, list of strings / windows / parameters), followed by a small A
+    record that must survive: size limits that exist on one side only (a writer refusing what the parser accepted, or the
+    reverse) show up here"""
+    sizes = [257, 4095, 4096, 8191, 8192, 8193, 16384, 32767, 32768, 65535] if tier == "quick" else \
+        [256, 257, 1024, 4095, 4096, 4097, 8191, 8192, 8193, 16383, 16384, 16385, 32767, 32768, 32769, 65000, 65534, 65535]
+    out = []
+    for tname in dns.TYPED:
+        sch = dns.SCHEMA[tname][1] if tname != "IPSECKEY" else dns.ipseckey_schema(0)
+        var = [k for k in sch if k == "rest" or (isinstance(k, tuple) and k[0] == "items")]
+        if not var:
+            continue
+        for S in sizes:
+            vals = []
+            for k in sch:
+                if k == "ver0" or (isinstance(k, tuple) and k[0] == "be"):
+                    vals.append(("I", 0))
+                elif k == "cstr":
+                    vals.append(("B", b"t"))
+                elif k == "rest":
+                    vals.append(("B", b""))
+                elif k[0] == "name":
+                    vals.append(("N", [b"n"]))
+                else:
+                    vals.append(("L", []))
+            fixed = len(dns.enc_rdata_ref(tname, vals))
+            room = S - fixed
+            if room <= 0:
+                continue
+            i = [j for j, k in enumerate(sch) if k in var][-1]
+            k = sch[i]
+            if k == "rest":
+                vals[i] = ("B", bytes((7 * j + 1) & 0xFF for j in range(room)))
+            elif k[1] == "cstr":
+                its = []
+                while room > 0:
+                    l = min(255, room - 1)
+                    its.append((0, b"s" * l))
+                    room -= l + 1
+                vals[i] = ("L", its)
+            elif k[1] == "win":
+                its, w = [], 0
+                while room >= 3 and w < 256:
+                    l = min(32, room - 2)
+                    its.append((w, b"\x01" * (l - 1) + b"\x80"))
+                    room -= l + 2
+                    w += 1
+                vals[i] = ("L", its)
+            else:   # param
+                its, key = [], 1
+                while room >= 4:
+                    l = min(room - 4, 2000)
+                    its.append((key, b"v" * l))
+                    room -= l + 4
+                    key += 1
+                vals[i] = ("L", its)
+            if len(dns.enc_rdata_ref(tname, vals)) > 65535:
+                continue
+            out.append({"id": S & 0xFFFF, "opcode": 0, "rcode": 0, "flags": 0x8400, "opt": None, "qs": [], "nss": [], "adds": [],
+                        "ans": [{"name": [b"big"], "class": 1, "ttl": 60, "cf": False, "rdata": ("T", tname, vals)},
+                                {"name": [b"big"], "class": 1, "ttl": 60, "cf": False, "rdata": ("T", "A", [("I", 0x0a000001)])}]})
     return out
